@@ -7,6 +7,7 @@ from itertools import chain
 import logging
 import os
 import os.path
+import shutil
 import sys
 import tempfile
 import time
@@ -395,6 +396,10 @@ if __name__ == '__main__':
                 encoding = chardet.detect(fd.read())['encoding']
                 if encoding not in ('ascii', 'utf-8'):
                     logging.info(f'Converting {test_case} file ({encoding} encoding) to UTF-8')
+                    # the backup made at the start of the reduction would only see the converted text:
+                    # keep the original bytes as <test case>.orig now (same rule: never overwrite one)
+                    if not args.tidy and not os.path.exists(f'{test_case}.orig'):
+                        shutil.copy2(test_case, f'{test_case}.orig')
                     data = open(test_case, encoding=encoding).read()
                     with open(test_case, 'w') as w:
                         w.write(data)
